@@ -1062,4 +1062,364 @@ theorem subseqBy_congr {α β} (m m' : α → β → Bool) : ∀ (as : List α) 
     rw [h a (by simp) b, subseqBy_congr m m' as bs (fun x hx => h x (by simp [hx])),
       subseqBy_congr m m' (a :: as) bs h]
 
+
+/-! ### the lines of a branch are not read as top-level `Spec:` lines -/
+
+/-- a line that starts like a line nested at depth ≥ 1: a blank, a bar, and a bar or a mark -/
+def Deep (l : Str) : Prop := ∃ c l3, l = ' ' :: '|' :: c :: l3 ∧ (c = '|' ∨ c = '\\' ∨ c = 'X' ∨ c = '+')
+
+theorem Deep_gutter {l : Str} (h : Deep l) : 1 ≤ (gutter l).1 := by
+  obtain ⟨c, l3, rfl, hc⟩ := h
+  rcases hc with rfl | rfl | rfl | rfl
+  · simp only [gutter, List.takeWhile_cons, beq_self_eq_true, if_true, List.length_cons]
+    split <;> simp <;> omega
+  · simp [gutter, List.takeWhile]
+  · simp [gutter, List.takeWhile]
+  · simp [gutter, List.takeWhile]
+
+theorem Deep_remark {l : Str} (p : Nat) (m : Char) (h : Deep l) (hp : 1 ≤ p) (hm : m = '\\' ∨ m = 'X') :
+    Deep (remark p l m) := by
+  obtain ⟨c, l3, rfl, hc⟩ := h
+  unfold remark
+  obtain ⟨q, rfl⟩ : ∃ q, p = q + 1 := ⟨p - 1, by omega⟩
+  cases q with
+  | zero =>
+    refine ⟨m, l3, by simp, ?_⟩
+    rcases hm with rfl | rfl <;> simp
+  | succ q =>
+    exact ⟨c, (l3.take q ++ m :: l3.drop (q + 1)), by simp, hc⟩
+
+theorem Deep_indent (d : Nat) (hd : 1 ≤ d) (t x : Str) (ht : t = tickOf d ∨ t = "+ ".toList) :
+    Deep (indentOf d ++ t ++ x) := by
+  obtain ⟨d', rfl⟩ : ∃ d', d = d' + 1 := ⟨d - 1, by omega⟩
+  cases d' with
+  | zero =>
+    rcases ht with rfl | rfl
+    · exact ⟨'|', ' ' :: x, by simp [indentOf, tickOf], Or.inl rfl⟩
+    · exact ⟨'+', ' ' :: x, by simp [indentOf], Or.inr (Or.inr (Or.inr rfl))⟩
+  | succ d'' =>
+    exact ⟨'|', List.replicate d'' '|' ++ t ++ x, by simp [indentOf, List.replicate_succ], Or.inl rfl⟩
+
+/-- a line of a branch: nested, or without a `Spec:` label -/
+def DoF (l : Str) : Prop := Deep l ∨ afterLabel "Spec".toList l = none
+
+def AllDoF (T : Str) : Prop := ∀ l, l ∈ splitLines T → DoF l
+
+theorem AllDoF_joinLines (segs : List Str) (hne : segs ≠ []) (h : ∀ s, s ∈ segs → AllDoF s) : AllDoF (joinLines segs) := by
+  intro l hl
+  rw [splitLines_joinLines segs hne] at hl
+  obtain ⟨s, hs, hls⟩ := List.mem_flatMap.mp hl
+  exact h s hs l hls
+
+theorem AllDoF_remark (d : Nat) (m : Char) (s : Str) (hd : 1 ≤ d) (hg : GPre (d + 3) s) (h : AllDoF s)
+    (hm : m = '\\' ∨ m = 'X') : AllDoF (remark d s m) := by
+  obtain ⟨g, x, rfl, hgut, hlen⟩ := hg
+  have hmg : isGutterChar m = true := by rcases hm with rfl | rfl <;> decide
+  rw [remark_prefix d g x m (by omega)]
+  cases hs : splitLines x with
+  | nil => exact absurd hs (splitLines_ne_nil x)
+  | cons hd' tl =>
+    have hg' := Gut_remark d g m hgut hmg
+    have hold := splitLines_prefix g x hd' tl (Gut_NoNL hgut) hs
+    intro l hl
+    unfold AllDoF at h
+    rw [hold] at h
+    rw [splitLines_prefix _ x hd' tl (Gut_NoNL hg') hs] at hl
+    rcases List.mem_cons.mp hl with hl | hl
+    · subst hl
+      rcases h (g ++ hd') (by simp) with h1 | h1
+      · left
+        have := Deep_remark d m h1 hd hm
+        rwa [remark_prefix d g hd' m (by omega)] at this
+      · right
+        rw [afterLabel_gutter _ _ _ hg']
+        rwa [afterLabel_gutter _ _ _ hgut] at h1
+    · exact h l (List.mem_cons_of_mem _ hl)
+
+theorem AllDoF_traceLine (d w : Nat) (lbl t v : Str) (vlen : Option Nat) (hd : 1 ≤ d)
+    (ht : t = tickOf d ∨ t = "+ ".toList) (hl : NoNL lbl) (hv : NoNL v) : AllDoF (traceLine d w lbl t v vlen) := by
+  have htg : Gut t := by rcases ht with rfl | rfl; exact Gut_tickOf d; exact Gut_plus
+  have hnl : NoNL (traceLine d w lbl t v vlen) := by
+    rw [traceLine_eq]
+    apply NoNL_append (Gut_NoNL (Gut_append (Gut_indentOf d) htg))
+    apply NoNL_append (NoNL_append hl (by intro c hc hn; subst hn; simp at hc))
+    exact formatValue_NoNL _ _ _ hv
+  intro l hl'
+  rw [splitLines_noNL _ hnl] at hl'
+  simp only [List.mem_singleton] at hl'
+  subst hl'
+  left
+  rw [traceLine_eq]
+  exact Deep_indent d hd t _ ht
+
+theorem AllDoF_err (d : Nat) (hd : 1 ≤ d) (e : Str) (he : ∀ l, l ∈ splitLines e → afterLabel "Spec".toList l = none) :
+    AllDoF (indentOf d ++ tickOf d ++ e) := by
+  cases hs : splitLines e with
+  | nil => exact absurd hs (splitLines_ne_nil e)
+  | cons hd' tl =>
+    intro l hl
+    rw [splitLines_prefix _ e hd' tl (Gut_NoNL (Gut_append (Gut_indentOf d) (Gut_tickOf d))) hs] at hl
+    rcases List.mem_cons.mp hl with hl | hl
+    · subst hl
+      left
+      exact Deep_indent d hd (tickOf d) hd' (Or.inl rfl)
+    · right
+      exact he l (by rw [hs]; exact List.mem_cons_of_mem _ hl)
+
+
+/-- the texts of all frames are single lines -/
+def FramesOneLine (fs : Array Frame) : Prop := ∀ (j : Nat) (f : Frame), fs[j]? = some f → NoNL f.spec ∧ NoNL f.target
+
+/-- no line of an error text is read as a `Spec:` line -/
+def ErrLabelFree (errText : Nat → Str) : Prop :=
+  ∀ e l, l ∈ splitLines (errText e) → afterLabel "Spec".toList l = none
+
+theorem NoNL_lit (s : String) (h : s.toList.all (fun c => c != '\n') = true) : NoNL s.toList := by
+  intro c hc hn
+  subst hn
+  have := List.all_eq_true.mp h _ hc
+  simp at this
+
+theorem allSegs_AllDoF (fs : Array Frame) (errText : Nat → Str) (rootError width depth : Nat) (lb : Bool)
+    (recur : Nat → Option Nat → Bool → Str) (hd : 1 ≤ depth) (hfs : FramesOneLine fs) (herr : ErrLabelFree errText) :
+    ∀ (rows : List Row) (prev : Option Nat),
+    (∀ r, r ∈ rows → ∀ b, b ∈ r.branches → ∀ p l, AllDoF (recur b p l)) →
+    ∀ s, s ∈ allSegs fs errText rootError width depth lb recur rows prev → AllDoF s
+  | [], _, _, s, hs => by simp [allSegs] at hs
+  | r :: rest, prev, hrec, s, hs => by
+    have ih := allSegs_AllDoF fs errText rootError width depth lb recur hd hfs herr rest
+    simp only [allSegs] at hs
+    cases hf : fs[r.frame]? with
+    | none =>
+      rw [hf] at hs
+      exact ih prev (fun r' hr' => hrec r' (List.mem_cons_of_mem _ hr')) s hs
+    | some f =>
+      rw [hf] at hs
+      obtain ⟨hns, hnt⟩ := hfs _ f hf
+      rcases List.mem_append.mp hs with h | h
+      · simp only [rowSegs, List.mem_append] at h
+        rcases h with (h | h) | h
+        · split at h
+          · simp only [List.mem_singleton] at h; subst h
+            exact AllDoF_traceLine _ _ _ _ _ _ hd (Or.inl rfl) (NoNL_lit "Target" (by decide)) hnt
+          · simp at h
+        · cases hb : r.branches.reverse with
+          | nil =>
+            rw [hb] at h
+            simp only [List.mem_singleton] at h; subst h
+            exact AllDoF_traceLine _ _ _ _ _ _ hd (Or.inl rfl) (NoNL_lit "Spec" (by decide)) hns
+          | cons lastB revInit =>
+            rw [hb] at h
+            have hbs := branches_of_reverse hb
+            simp only [List.mem_append, List.mem_singleton, List.mem_map] at h
+            rcases h with (h | ⟨b, hb', h⟩) | h
+            · subst h; exact AllDoF_traceLine _ _ _ _ _ _ hd (Or.inr rfl) (NoNL_lit "Spec" (by decide)) hns
+            · subst h; exact hrec r (by simp) b (by rw [hbs]; simp [hb']) _ _
+            · subst h; exact hrec r (by simp) lastB (by rw [hbs]; simp) _ _
+        · cases he : r.error with
+          | none => rw [he] at h; exact absurd h (by simp)
+          | some e =>
+            rw [he] at h
+            by_cases hne : (e != rootError) = true
+            · simp only [hne, if_true, List.mem_singleton] at h; subst h
+              exact AllDoF_err depth hd _ (herr e)
+            · simp [hne] at h
+      · exact ih (some f.tid) (fun r' hr' => hrec r' (List.mem_cons_of_mem _ hr')) s h
+
+/-- **every line of the text of a branch is nested, or has no `Spec:` label** -/
+theorem nested_lines (fs : Array Frame) (errText : Nat → Str) (rootError width : Nat)
+    (hfs : FramesOneLine fs) (herr : ErrLabelFree errText) :
+    ∀ (fuel h d : Nat) (prev : Option Nat) (lb : Bool), Renderable fs fuel h → 1 ≤ d →
+      AllDoF (formatTrace fs errText rootError width fuel h d prev lb)
+  | 0, _, _, _, _, hr, _ => by simp [Renderable] at hr
+  | fuel + 1, h, d, prev, lb, hr, hd => by
+    obtain ⟨hne, hrows⟩ := hr
+    rw [formatTrace_succ]
+    have hrec : ∀ r, r ∈ unpack fs h → ∀ b, b ∈ r.branches → ∀ p l,
+        AllDoF (formatTrace fs errText rootError width fuel b (d + 1) p l) :=
+      fun r hr b hb p l => nested_lines fs errText rootError width hfs herr fuel b (d + 1) p l ((hrows r hr).2 b hb) (by omega)
+    have hall := allSegs_AllDoF fs errText rootError width d lb
+      (fun b p l => formatTrace fs errText rootError width fuel b (d + 1) p l) hd hfs herr (unpack fs h) prev hrec
+    have hgp : ∀ s, s ∈ allSegs fs errText rootError width d lb
+        (fun b p l => formatTrace fs errText rootError width fuel b (d + 1) p l) (unpack fs h) prev → GPre (d + 3) s := by
+      apply allSegs_GPre
+      intro r hr b hb p l
+      exact GPre_mono (by omega) (formatTrace_GPre fs errText rootError width fuel b (d + 1) p l ((hrows r hr).2 b hb))
+    have hsne := allSegs_ne_nil fs errText rootError width d lb
+      (fun b p l => formatTrace fs errText rootError width fuel b (d + 1) p l) (unpack fs h) prev hne
+      (fun r hr => (hrows r hr).1)
+    simp only []
+    have hd0 : (d == 0) = false := by simp; omega
+    rw [hd0]
+    simp only [Bool.false_eq_true, if_false]
+    have h1 : ∀ s, s ∈ setHead (allSegs fs errText rootError width d lb
+        (fun b p l => formatTrace fs errText rootError width fuel b (d + 1) p l) (unpack fs h) prev)
+        (fun s => remark d s '\\') → AllDoF s ∧ GPre (d + 3) s := by
+      intro s hs
+      rcases mem_setHead _ _ hs with h' | ⟨s0, h0, rfl⟩
+      · exact ⟨hall s h', hgp s h'⟩
+      · exact ⟨AllDoF_remark d '\\' s0 hd (hgp s0 h0) (hall s0 h0) (Or.inl rfl),
+          GPre_remark d '\\' (hgp s0 h0) (by omega) (by decide)⟩
+    split
+    · apply AllDoF_joinLines _ (setLast_ne_nil _ (setHead_ne_nil _ hsne))
+      intro s hs
+      rcases mem_setLast _ _ hs with h' | ⟨s0, h0, rfl⟩
+      · exact (h1 s h').1
+      · exact AllDoF_remark d 'X' s0 hd (h1 s0 h0).2 (h1 s0 h0).1 (Or.inr rfl)
+    · exact AllDoF_joinLines _ (setHead_ne_nil _ hsne) (fun s hs => (h1 s hs).1)
+
+
+/-! ### the top-level `Spec:` lines are those of the rows -/
+
+/-- the `Spec:` text of a line of nesting depth 0 -/
+def topSpec (l : Str) : Option Str := if (gutter l).1 == 0 then afterLabel "Spec".toList l else none
+
+theorem filterMap_filter_top (lines : List Str) :
+    (lines.filter (fun l => (gutter l).1 == 0)).filterMap (afterLabel "Spec".toList) = lines.filterMap topSpec := by
+  induction lines with
+  | nil => rfl
+  | cons l r ih =>
+    simp only [List.filter_cons, List.filterMap_cons, topSpec]
+    split
+    · simp only [List.filterMap_cons, ih]
+    · simp only [ih]
+
+theorem topSpec_of_DoF {l : Str} (h : DoF l) : topSpec l = none := by
+  unfold topSpec
+  rcases h with h | h
+  · have := Deep_gutter h
+    rw [if_neg (by simp; omega)]
+  · rw [h]; simp
+
+theorem linesMap_top_AllDoF (T : Str) (h : AllDoF T) : linesMap topSpec T = [] := by
+  unfold linesMap
+  apply List.filterMap_eq_nil_iff.mpr
+  intro l hl
+  exact topSpec_of_DoF (h l hl)
+
+theorem linesMap_top_target (w : Nat) (v : Str) (vlen : Option Nat) (hv : NoNL v) :
+    linesMap topSpec (traceLine 0 w "Target".toList (tickOf 0) v vlen) = [] := by
+  have hnl : NoNL (traceLine 0 w "Target".toList (tickOf 0) v vlen) := by
+    rw [traceLine_eq]
+    apply NoNL_append (Gut_NoNL (Gut_append (Gut_indentOf 0) (Gut_tickOf 0)))
+    apply NoNL_append (NoNL_append (NoNL_lit "Target" (by decide)) (by intro c hc hn; subst hn; simp at hc))
+    exact formatValue_NoNL _ _ _ hv
+  unfold linesMap
+  rw [splitLines_noNL _ hnl]
+  simp only [List.filterMap_cons, List.filterMap_nil, topSpec]
+  rw [traceLine_eq, afterLabel_gutter _ _ _ (Gut_append (Gut_indentOf 0) (Gut_tickOf 0)), afterLabel_spec_target]
+  simp
+
+theorem linesMap_top_spec (w : Nat) (t : Str) (f : Frame) (ht : t = tickOf 0 ∨ t = "+ ".toList) (hs : NoNL f.spec) :
+    linesMap topSpec (traceLine 0 w "Spec".toList t f.spec f.slen) = [specShown w f 0] := by
+  have htg : Gut t := by rcases ht with rfl | rfl; exact Gut_tickOf 0; exact Gut_plus
+  have htl : t.length = 2 := by rcases ht with rfl | rfl <;> rfl
+  have hlen : (indentOf 0 ++ t ++ "Spec".toList ++ ": ".toList).length = 0 + 9 := by
+    simp [indentOf_length, htl]
+  have hnl : NoNL (traceLine 0 w "Spec".toList t f.spec f.slen) := by
+    rw [traceLine_eq]
+    apply NoNL_append (Gut_NoNL (Gut_append (Gut_indentOf 0) htg))
+    apply NoNL_append (NoNL_append (NoNL_lit "Spec" (by decide)) (by intro c hc hn; subst hn; simp at hc))
+    exact formatValue_NoNL _ _ _ hs
+  unfold linesMap
+  rw [splitLines_noNL _ hnl]
+  simp only [List.filterMap_cons, List.filterMap_nil, topSpec]
+  have hg : (gutter (traceLine 0 w "Spec".toList t f.spec f.slen)).1 = 0 := by
+    rw [traceLine_eq]
+    rcases ht with rfl | rfl <;> simp [indentOf, tickOf, gutter, List.takeWhile]
+  rw [hg]
+  simp only [beq_self_eq_true, if_true]
+  rw [traceLine_eq, hlen, afterLabel_gutter _ _ _ (Gut_append (Gut_indentOf 0) htg), afterLabel_spec_self]
+  rfl
+
+theorem linesMap_top_err (e : Str) (he : ∀ l, l ∈ splitLines e → afterLabel "Spec".toList l = none) :
+    linesMap topSpec (indentOf 0 ++ tickOf 0 ++ e) = [] := by
+  unfold linesMap
+  apply List.filterMap_eq_nil_iff.mpr
+  intro l hl
+  cases hs : splitLines e with
+  | nil => exact absurd hs (splitLines_ne_nil e)
+  | cons hd' tl =>
+    rw [splitLines_prefix _ e hd' tl (Gut_NoNL (Gut_append (Gut_indentOf 0) (Gut_tickOf 0))) hs] at hl
+    unfold topSpec
+    rcases List.mem_cons.mp hl with hl | hl
+    · subst hl
+      rw [afterLabel_gutter _ _ _ (Gut_append (Gut_indentOf 0) (Gut_tickOf 0)), he hd' (by rw [hs]; simp)]
+      simp
+    · rw [he l (by rw [hs]; exact List.mem_cons_of_mem _ hl)]
+      simp
+
+theorem topSpec_nil : topSpec [] = none := by
+  simp [topSpec, gutter, afterLabel_nil]
+
+theorem allSegs_top (fs : Array Frame) (errText : Nat → Str) (rootError width : Nat) (lb : Bool)
+    (recur : Nat → Option Nat → Bool → Str) (hfs : FramesOneLine fs) (herr : ErrLabelFree errText) :
+    ∀ (rows : List Row) (prev : Option Nat),
+    (∀ r, r ∈ rows → ∀ b, b ∈ r.branches → ∀ p l, AllDoF (recur b p l)) →
+    (allSegs fs errText rootError width 0 lb recur rows prev).flatMap (linesMap topSpec) =
+      rows.filterMap (fun r => (fs[r.frame]?).map (fun f => specShown width f 0))
+  | [], _, _ => by simp [allSegs]
+  | r :: rest, prev, hrec => by
+    have ih := allSegs_top fs errText rootError width lb recur hfs herr rest
+    have hrest : ∀ r', r' ∈ rest → ∀ b, b ∈ r'.branches → ∀ p l, AllDoF (recur b p l) :=
+      fun r' hr' => hrec r' (List.mem_cons_of_mem _ hr')
+    simp only [allSegs, List.filterMap_cons]
+    cases hf : fs[r.frame]? with
+    | none => simp only [Option.map_none]; exact ih prev hrest
+    | some f =>
+      obtain ⟨hns, hnt⟩ := hfs _ f hf
+      simp only [Option.map_some, List.flatMap_append, ih (some f.tid) hrest]
+      have hrow : (rowSegs errText rootError width 0 lb recur f r prev).flatMap (linesMap topSpec) = [specShown width f 0] := by
+        simp only [rowSegs, List.flatMap_append]
+        have h1 : (if (prev != some f.tid) = true then [traceLine 0 width "Target".toList (tickOf 0) f.target f.tlen] else []).flatMap
+            (linesMap topSpec) = [] := by
+          split
+          · simp only [List.flatMap_cons, List.flatMap_nil, List.append_nil]
+            exact linesMap_top_target width f.target f.tlen hnt
+          · rfl
+        have h3 : (match r.error with
+            | some e => if (e != rootError) = true then [indentOf 0 ++ tickOf 0 ++ errText e] else []
+            | none => []).flatMap (linesMap topSpec) = [] := by
+          cases r.error with
+          | none => rfl
+          | some e =>
+            simp only []
+            split
+            · simp only [List.flatMap_cons, List.flatMap_nil, List.append_nil]
+              exact linesMap_top_err (errText e) (herr e)
+            · rfl
+        rw [h1, h3]
+        cases hb : r.branches.reverse with
+        | nil =>
+          simp only [List.flatMap_cons, List.flatMap_nil, List.append_nil, List.nil_append]
+          exact linesMap_top_spec width _ f (Or.inl rfl) hns
+        | cons lastB revInit =>
+          have hbs := branches_of_reverse hb
+          have e0 : linesMap topSpec (traceLine 0 width "Spec".toList "+ ".toList f.spec f.slen) = [specShown width f 0] :=
+            linesMap_top_spec width _ f (Or.inr rfl) hns
+          simp only [List.flatMap_append, List.flatMap_cons, List.flatMap_nil, List.append_nil, List.nil_append,
+            List.flatMap_map]
+          rw [e0]
+          have e1 : revInit.reverse.flatMap (fun b => linesMap topSpec (recur b (some f.tid) false)) = [] := by
+            apply List.flatMap_eq_nil_iff.mpr
+            intro b hb'
+            exact linesMap_top_AllDoF _ (hrec r (by simp) b (by rw [hbs]; simp [hb']) _ _)
+          rw [e1, linesMap_top_AllDoF _ (hrec r (by simp) lastB (by rw [hbs]; simp) _ _)]
+          simp
+      rw [hrow]
+      simp
+
+/-- **the `Spec:` lines of nesting depth 0 are the `Spec:` lines of the rows, in order** -/
+theorem top_specs (fs : Array Frame) (errText : Nat → Str) (rootError width fuel h : Nat) (prev : Option Nat) (lb : Bool)
+    (hfs : FramesOneLine fs) (herr : ErrLabelFree errText) (hr : Renderable fs (fuel + 1) h) :
+    linesMap topSpec (formatTrace fs errText rootError width (fuel + 1) h 0 prev lb) =
+      (unpack fs h).filterMap (fun r => (fs[r.frame]?).map (fun f => specShown width f 0)) := by
+  obtain ⟨_, hrows⟩ := hr
+  rw [formatTrace_succ]
+  simp only [beq_self_eq_true, if_true]
+  rw [linesMap_joinLines topSpec topSpec_nil]
+  apply allSegs_top fs errText rootError width lb _ hfs herr
+  intro r hr b hb p l
+  exact nested_lines fs errText rootError width hfs herr fuel b (0 + 1) p l ((hrows r hr).2 b hb) (by omega)
+
 end Glom.C05
